@@ -65,6 +65,8 @@ fn main() {
     }
     let ctx = Ctx::new(&id, tier, seed, root, replay_case);
     ctx.assume("kspec (independent executable specification) passed its RFC self-test at start-up");
+    if let Ok(n) = std::env::var("KVERIF_EXTRA_NOTE") { ctx.note(n); }
+    ctx.put("build_profile", serde_json::json!(if cfg!(debug_assertions) { "opt-level 3, debug assertions and overflow checks ON" } else { "opt-level 3, debug assertions and overflow checks OFF (as shipped)" }));
     if !props::run(&ctx) { eprintln!("unknown property {}", id); std::process::exit(2); }
     let rc = ctx.finish();
     if std::env::var("KVERIF_TRACE_FILE").map(|s| s.is_empty()).unwrap_or(true) { let _ = std::fs::remove_file(&trace_file); }
